@@ -25,6 +25,7 @@ REQUIRED = {'orth-structure': 500, 'orth-orthonormal': 500, 'orth-tensor': 500,
     'orth-stab': 200, 'orth-reject': 100, 'step-orthonormal': 200,
     'step-tensor': 200, 'step-inplace': 100, 'step-not-inplace': 100,
     'orth-nested': 20}
+REQUIRED_EVENTS = {'norm-outside-double-range': 20}
 ASSUMPTIONS = ['tensor-preservation tolerance 50 d eps prod_k ||G_k||_F '
     '(norm-wise backward error of the QR/RQ chain)',
     'orthonormality tolerance 20 (r n) eps on Gram matrices',
@@ -36,7 +37,8 @@ SHARDS = {'quick': 12, 'thorough': 16}
 def gen_cases(seed, tier):
     rng = np.random.default_rng([seed, 104])
     q = tier == 'quick'
-    fams = gen.FAMILIES + ['zero-core', 'huge', 'tiny', 'long']
+    fams = gen.FAMILIES + ['zero-core', 'huge', 'tiny', 'long', 'spread-huge',
+        'spread-tiny']
     out = []
     for j in range(600 if q else 15000):
         out.append({'seed': int(rng.integers(1 << 62)),
@@ -71,7 +73,7 @@ def compare_tensors(ctx, mon, Y, Z, p, rng, what):
         ctx.check(mon, bool(diff <= tol),
             lambda: f'{what}: ||dense(Z) 2^p - dense(Y)||_F = {float(diff):.4e} '
             f'> {float(tol):.4e}', shape=n, ranks=ref.ranks_of(Y), p=p)
-        return float(np.sqrt(np.sum(A * A)))
+        return np.sqrt(np.sum(A * A))          # longdouble: may be outside double range
     # probes
     nrm = None
     for t in range(4):
@@ -85,7 +87,7 @@ def compare_tensors(ctx, mon, Y, Z, p, rng, what):
             lambda: f'{what}: <Z 2^p, x> = {float(v2):.6e} != <Y, x> = '
             f'{float(v1):.6e} for a random rank-1 probe', d=d, p=p)
     m, e = ref.scaled_scalar_product(Y, Y)
-    return float(np.sqrt(ld_value(m, e)))
+    return np.sqrt(ld_value(m, e))
 
 
 def gram_dev_left(G):
@@ -147,7 +149,8 @@ def judge_orth(ctx, Y, k, use_stab, res, rng, nested=False):
         np.ldexp(LD(1), p)
     ctx.check('orth-pivot-norm', bool(abs(pn - LD(nrm)) <= 50 * d * EPS * P
         + 1e-9 * LD(nrm)), f'pivot core norm {float(pn):.6e} != ||Y|| = '
-        f'{nrm:.6e} (pivot {k})', shape=n)
+        f'{float(np.log2(nrm)) if nrm > 0 else 0:.3f} (log2) (pivot {k})', shape=n,
+        pivot_log2=float(np.log2(pn)) if pn > 0 else None)
     al = sanit.aliases(Z, Y)
     ctx.check('orth-noalias', not al, f'result shares memory with the '
         f'argument: {al[:3]}')
@@ -159,7 +162,7 @@ def judge_orth(ctx, Y, k, use_stab, res, rng, nested=False):
             okm = okm and pm >= 2.0 ** -10
         ctx.check('orth-stab', okm, f'entries not of moderate magnitude: '
             f'max |entry| = {mx:.3e}, pivot max = {pm:.3e}, p = {p}',
-            shape=n, norm=nrm)
+            shape=n, log2_norm=float(np.log2(nrm)) if nrm > 0 else None)
     if d >= 3 or any(b < a for a, b in zip(rin, rout)):
         ctx.nontrivial([n, rin, k, bool(use_stab)])
 
@@ -262,6 +265,17 @@ def make_input(rng, fam):
         r = gen.rand_ranks(rng, d, 3)
         Y = gen.cores(rng, n, r, 'normal')
         return Y, {'family': fam, 'n': n, 'r': r}
+    if fam.startswith('spread'):
+        # every core of ordinary size, but the norm of the tensor far outside
+        # the double range (only the stabilised variant is claimed to work)
+        d = int(rng.integers(8, 15))
+        n = [int(rng.integers(1, 4)) for _ in range(d)]
+        r = gen.rand_ranks(rng, d, 3)
+        Y = gen.cores(rng, n, r, 'normal')
+        sgn = 1 if fam == 'spread-huge' else -1
+        for G in Y:
+            G *= 2.0 ** (sgn * int(rng.integers(90, 131)))
+        return Y, {'family': fam, 'n': n, 'r': r}
     base = fam if fam in gen.FAMILIES else None
     Y, info = gen.make_tt(rng, base, dmax=5, nmax=4, rmax=5, max_entries=3000)
     d = len(Y)
@@ -296,14 +310,22 @@ def run_case(case, ctx):
     pivots = list(range(d)) if d <= 12 else \
         sorted({0, 1, d // 2, d - 2, d - 1} | set(int(x)
         for x in rng.integers(0, d, size=4)))
+    spread = case['family'].startswith('spread')
     for k in pivots:
-        for stab in (False, True):
+        for stab in ((True,) if spread else (False, True)):
             if stab and rng.random() < 0.3:
                 teneva.orthogonalize(Y, k=k, use_stab=True)
             elif stab:
                 teneva.orthogonalize(Y, k, True)
             else:
                 teneva.orthogonalize(Y, k)
+    if spread:
+        ctx.event('norm-outside-double-range')
+        Z = teneva.orthogonalize(Y, pivots[len(pivots) // 2], True)
+        ctx.sample({'case': case, 'shape': info['n'], 'ranks': info['r'],
+            'log2_core_scale': [float(np.log2(np.abs(G).max())) for G in Y],
+            'p': int(Z[1])})
+        return
     teneva.orthogonalize(Y)                       # default pivot = last
     for bad in (-1, d, d + 3):
         expect_reject(ctx, lambda: teneva.orthogonalize(Y, bad),
